@@ -15,7 +15,7 @@ import tgen
 PROP = "C16"
 LEVEL = "proof"
 GEN_UNITS = []
-COQ_TARGETS = ["Props/C16.vo", "Model/C16Harness.vo", "Model/Harness.vo"]
+COQ_TARGETS = ["Props/C16.vo", "Model/C16Harness.vo", "Model/C16Lines.vo", "Model/Harness.vo"]
 THEOREM_FILES = ["Props/C16.v"]
 COQ_IMPORTS = ("From Coq Require Import String.\nFrom Coq Require Import List ZArith Bool.\n"
                "From PV Require Import Base.Index Np.Array Model.Sparse Model.Repr Model.Harness Model.C16IO Model.C16Harness.\n")
@@ -168,9 +168,174 @@ def gen_cases(rng, tier):
             shp = shp + [rng.randint(1, 3)]
         cbits = rand_vals(rng, math.prod(shp))
         cases.append(Case("ndarray", {"shape": shp, "cbits": cbits, "layout": rng.choice(["C", "F"])}, nt(cbits)))
+    # rank-0 Kruskal tensor (constructible with ktensor.from_function(f, shape, 0)): finding C16-N1
+    cases.append(Case("ktensor", {"shape": [2, 3], "weights": [], "factors": [[[], []], [[], [], []]]}, False))
+    # optional format arguments: the round trip is claimed for the default only; with another format the LAYOUT is the same
+    # and what is read back is the object with every value replaced by float(fmt % value)
+    for _ in range(60 if big else 16):
+        kind = rng.choice(["tensor", "sptensor", "ktensor", "matrix"])
+        fd = rng.choice(["%.3e", "%.8e", "%.17e", "%.16e", "%.1e"])
+        fw = rng.choice([None, "%.2e", "%.17e", "%.5e"])
+        shp = tgen.rand_shape(rng, maxn=3, maxcells=24, maxdim=4)
+        vals = lambda n: [f2b(rng.choice([1, -1]) * rng.random() * 10 ** rng.randint(-3, 4)) for _ in range(n)]
+        if kind == "tensor":
+            a = {"shape": shp, "bits": vals(math.prod(shp))}
+        elif kind == "sptensor":
+            subs = rng.sample(tgen.all_subs(shp), rng.randint(1, min(5, math.prod(shp))))
+            a = {"shape": shp, "subs": subs, "bits": vals(len(subs)), "base": 1}
+        elif kind == "ktensor":
+            R = rng.randint(1, 3)
+            a = {"shape": shp, "weights": vals(R), "factors": [[vals(R) for _ in range(d)] for d in shp]}
+        else:
+            m, n = rng.randint(1, 4), rng.randint(1, 4)
+            a = {"m": m, "n": n, "rows": [vals(n) for _ in range(m)], "layout": "C"}
+        a["fmt_data"], a["fmt_weights"] = fd, fw
+        cases.append(Case(kind, a, True))
+    cases += gen_badfiles(rng, big)
     for k, vc in enumerate(volume):
         cases.insert((k * len(cases)) // len(volume), vc)
     return cases
+
+
+# ---------------------------------------------------------------- malformed files (import side, line-sensitive)
+def _fv(rng):
+    return rng.choice(["1.5000000000000000e+00", "-2.2500000000000000e+00", "3.0000000000000000e+05", "7.0000000000000000e-03",
+                       "1.0000000000000000e+00", "4", "-3", "2.5", "1e3"])
+
+
+def _good_file(rng):
+    """a valid file written by an independent pure-Python writer: (kind, lines as lists of strings, info)"""
+    kind = rng.choice(["tensor", "sptensor", "sptensor", "ktensor", "ktensor", "matrix"])
+    shp = tgen.rand_shape(rng, maxn=3, maxcells=12, maxdim=3)
+    L = [[kind], [str(len(shp))], [str(d) for d in shp]]
+    info = {"kind": kind, "shape": shp}
+    if kind == "tensor":
+        L += [[_fv(rng)] for _ in range(math.prod(shp))]
+    elif kind == "matrix":
+        if rng.random() < 0.6:
+            shp = [rng.randint(1, 3), rng.randint(1, 3)]
+            L[1], L[2] = ["2"], [str(d) for d in shp]
+        L += [[_fv(rng)] for _ in range(math.prod(shp))]
+    elif kind == "sptensor":
+        nz = rng.randint(0, min(4, math.prod(shp)))
+        subs = rng.sample(tgen.all_subs(shp), nz)
+        L.append([str(nz)])
+        info["entry0"] = len(L)
+        info["nz"] = nz
+        L += [[str(x + 1) for x in s_] + [_fv(rng)] for s_ in subs]
+    else:
+        R = rng.randint(1, 3)
+        L.append([str(R)])
+        info["wline"] = len(L)
+        L.append([_fv(rng) for _ in range(R)])
+        info["mlines"] = []
+        for d in shp:
+            info["mlines"].append(len(L))
+            L += [["matrix"], ["2"], [str(d), str(R)]] + [[_fv(rng) for _ in range(R)] for _ in range(d)]
+    return kind, L, info
+
+
+MUTATIONS = ["none", "type_word", "truncate", "header_extra", "sizes_extra", "sizes_short", "order_wrong", "line_extra_token",
+             "line_drop_token", "one_subscript", "base_mismatch_low", "base_mismatch_high", "sub_out_of_range", "reflow_join",
+             "reflow_split", "blank_line", "word_value", "float_subscript", "trailing_junk", "nnz_more", "nnz_less", "nnz_negative",
+             "drop_matrix_line", "matrix_line_other", "weights_extra", "rank_mismatch", "factor_cols", "factor_1d", "neg_size",
+             "empty_file", "first_line_number"]
+
+
+def gen_badfiles(rng, big):
+    out = []
+    for k in range(len(MUTATIONS) * (12 if big else 4)):
+        mut = MUTATIONS[k % len(MUTATIONS)]
+        kind, L, info = _good_file(rng)
+        L = [list(l) for l in L]
+        base = 1
+        body0 = {"tensor": 3, "matrix": 3, "sptensor": 4, "ktensor": 5}[kind]
+        if mut == "type_word":
+            L[0] = [rng.choice(["tensr", "Tensor", "sptensors", "dense", "matrix_", "k"])]
+        elif mut == "truncate":
+            L = L[: rng.randint(0, len(L) - 1)]
+        elif mut == "header_extra":
+            for j in sorted({0, 1, min(3, len(L) - 1)}):
+                if j != 2 and (j < 3 or kind in ("sptensor", "ktensor")):
+                    L[j] = L[j] + ["junk"]
+        elif mut == "sizes_extra":
+            L[2] = L[2] + ["2"]
+        elif mut == "sizes_short":
+            L[2] = L[2][:-1]
+        elif mut == "order_wrong":
+            L[1] = [str(int(L[1][0]) + rng.choice([-1, 1]))]
+        elif mut in ("line_extra_token", "line_drop_token", "word_value", "float_subscript", "one_subscript"):
+            if len(L) <= body0:
+                continue
+            j = rng.randrange(body0, len(L))
+            if mut == "line_extra_token":
+                L[j] = [rng.choice(["1", "2"])] + L[j]
+            elif mut == "line_drop_token":
+                L[j] = L[j][1:]
+            elif mut == "word_value":
+                L[j] = L[j][:-1] + ["x"]
+            elif mut == "float_subscript":
+                L[j] = ["1.0"] + L[j][1:]
+            else:
+                L[j] = [L[j][0], L[j][-1]] if len(L[j]) >= 2 else L[j]
+        elif mut == "base_mismatch_low":
+            base = rng.choice([2, 3])           # the file is 1-based, read with a larger base: subscripts fall below zero
+        elif mut == "base_mismatch_high":
+            base = rng.choice([0, -1])          # read with a smaller base: subscripts rise, possibly out of range
+        elif mut == "sub_out_of_range":
+            if kind != "sptensor" or not info["nz"]:
+                continue
+            j = info["entry0"] + rng.randrange(info["nz"])
+            col = rng.randrange(len(info["shape"]))
+            L[j][col] = str(info["shape"][col] + 1)
+        elif mut == "reflow_join":
+            if len(L) - body0 < 2:
+                continue
+            j = rng.randrange(body0, len(L) - 1)
+            L[j:j + 2] = [L[j] + L[j + 1]]
+        elif mut == "reflow_split":
+            cands = [j for j in range(body0, len(L)) if len(L[j]) >= 2]
+            if not cands:
+                continue
+            j = rng.choice(cands)
+            c = rng.randrange(1, len(L[j]))
+            L[j:j + 1] = [L[j][:c], L[j][c:]]
+        elif mut == "blank_line":
+            L.insert(rng.randint(1, len(L)), [])
+        elif mut == "trailing_junk":
+            L += [["9.0"], ["junk", "1"]]
+        elif mut in ("nnz_more", "nnz_less", "nnz_negative"):
+            if kind != "sptensor":
+                continue
+            L[3] = [str(info["nz"] + 1 if mut == "nnz_more" else (max(info["nz"] - 1, 0) if mut == "nnz_less" else -1))]
+        elif mut in ("drop_matrix_line", "matrix_line_other", "weights_extra", "rank_mismatch", "factor_cols", "factor_1d"):
+            if kind != "ktensor":
+                continue
+            j = rng.choice(info["mlines"])
+            if mut == "drop_matrix_line":
+                del L[j]
+            elif mut == "matrix_line_other":
+                L[j] = rng.choice([["anything", "here"], ["7"], []])
+            elif mut == "weights_extra":
+                L[info["wline"]] = L[info["wline"]] + [rng.choice(["9.0", "junk"])]
+            elif mut == "rank_mismatch":
+                L[3] = [str(int(L[3][0]) + 1)]
+            elif mut == "factor_cols":
+                L[j + 2] = [L[j + 2][0], str(int(L[j + 2][1]) + 1)]
+            else:
+                L[j + 1], L[j + 2] = ["1"], [str(int(L[j + 2][0]) * int(L[j + 2][1]))]
+        elif mut == "neg_size":
+            if kind == "matrix":
+                continue            # np.fromfile(count < 0) reads everything and np.reshape treats any negative size as unknown
+            if kind == "sptensor" and not info["nz"]:
+                continue            # ttb.sptensor(empty subs, empty vals, (-1,)) is accepted by the constructor (C19 territory)
+            L[2] = ["-" + L[2][0]] + L[2][1:]
+        elif mut == "empty_file":
+            L = []
+        elif mut == "first_line_number":
+            L[0] = ["3"]
+        out.append(Case("badfile", {"lines": L, "base": base, "mutation": mut, "kind": kind}, True))
+    return out
 
 
 # ---------------------------------------------------------------- running pyttb through real files
@@ -220,6 +385,23 @@ def run_impl(c):
     try:
         path = os.path.join(d, "obj.tns")
         base = 1
+        if c.op == "badfile":
+            import warnings
+            with open(path, "w") as fh:
+                fh.write("".join(" ".join(ln) + "\n" for ln in a["lines"]))
+            lines = tokenize(open(path).read())
+            o = {"lines": [[t[:2] for t in ln] for ln in lines]}
+            try:
+                with warnings.catch_warnings():
+                    warnings.simplefilter("ignore")          # np.fromfile's short-read DeprecationWarning
+                    got = ttb.import_data(path, index_base=a["base"])
+            except Exception as ex:
+                o["exc"] = type(ex).__name__
+                o["msg"] = str(ex)[:200]
+                return o
+            _STATS["badfiles_accepted"] = _STATS.get("badfiles_accepted", 0) + 1
+            o.update(_describe(np, ttb, got))
+            return o
         if c.op == "tensor":
             obj = ttb.tensor(_arr(np, a["bits"], tuple(a["shape"]), "F").copy(order="F"), tuple(a["shape"]))
             nd = len(a["bits"])
@@ -256,7 +438,10 @@ def run_impl(c):
             nd = len(a["cbits"])
         else:
             raise ValueError(c.op)
-        ttb.export_data(obj, path)
+        if a.get("fmt_data") or a.get("fmt_weights"):
+            ttb.export_data(obj, path, fmt_data=a.get("fmt_data"), fmt_weights=a.get("fmt_weights"))
+        else:
+            ttb.export_data(obj, path)
         text = open(path).read()
         lines = tokenize(text)
         lines1 = lines
@@ -264,7 +449,7 @@ def run_impl(c):
         for ln in lines:
             for t in ln:
                 if t[0] == "n":
-                    if t[2] != "%.16e" % b2f(t[1]):
+                    if t[2] != "%.16e" % b2f(t[1]) and not (a.get("fmt_data") or a.get("fmt_weights")):
                         text_ok = False
                         _STATS["text_mismatch"] += 1
         one_based = True
@@ -282,7 +467,18 @@ def run_impl(c):
         _STATS["files"] += 1
         _STATS["doubles"] += nd
         _explain()
-        o = {"lines": [[t[:2] for t in ln] for ln in lines], "lines1": None if base == 1 else [[t[:2] for t in ln] for ln in lines1], "text_ok": text_ok, "type": type(got).__name__}
+        o = {"lines": [[t[:2] for t in ln] for ln in lines], "lines1": None if base == 1 else [[t[:2] for t in ln] for ln in lines1], "text_ok": text_ok}
+        o.update(_describe(np, ttb, got))
+        return o
+    except Exception as ex:
+        return {"exc": type(ex).__name__, "msg": str(ex)[:300]}
+    finally:
+        shutil.rmtree(d, ignore_errors=True)
+
+
+def _describe(np, ttb, got):
+    o = {"type": type(got).__name__}
+    if True:
         if isinstance(got, ttb.tensor):
             o["shape"] = [int(x) for x in got.shape]
             o["bits"] = _bits(np, got.data, "F")
@@ -300,11 +496,7 @@ def run_impl(c):
             o["mshape"] = [int(x) for x in got.shape]
             o["rows"] = [_bits(np, row) for row in got] if got.ndim == 2 else None
             o["cbits"] = _bits(np, got, "C")
-        return o
-    except Exception as ex:
-        return {"exc": type(ex).__name__, "msg": str(ex)[:300]}
-    finally:
-        shutil.rmtree(d, ignore_errors=True)
+    return o
 
 
 # ---------------------------------------------------------------- Gallina
@@ -331,6 +523,25 @@ def glines(lines):
     return "(@nil (list ztoken))" if not lines else "[" + "; ".join(gl(ln) for ln in lines) + "]"
 
 
+def _rnd(fmt, b):
+    """float(fmt % v) as a bit pattern — Python's own formatting and parsing, independent of numpy's tofile/fromfile"""
+    return f2b(float(fmt % b2f(b))) if fmt else b
+
+
+def _rounded_args(c):
+    """the object a non-default format is expected to give back: every value replaced by float(fmt % value)"""
+    a = dict(c.args)
+    fd, fw = a.get("fmt_data"), a.get("fmt_weights")
+    if c.op in ("tensor", "sptensor"):
+        a["bits"] = [_rnd(fd, b) for b in a["bits"]]
+    elif c.op == "ktensor":
+        a["weights"] = [_rnd(fw, b) for b in a["weights"]]
+        a["factors"] = [[[_rnd(fd, b) for b in row] for row in f] for f in a["factors"]]
+    elif c.op == "matrix":
+        a["rows"] = [[_rnd(fd, b) for b in row] for row in a["rows"]]
+    return Case(c.op, a, c.nontrivial)
+
+
 def gobj_in(c):
     a = c.args
     if c.op == "tensor":
@@ -346,6 +557,8 @@ def gobj_in(c):
 
 def gobj_out(o):
     t = o["type"]
+    if any(x < 0 for x in (o.get("shape") or []) + (o.get("mshape") or [])):
+        return None
     if t == "tensor":
         if isinstance(o["bits"], dict) or o["data_shape"] != o["shape"]:
             return None
@@ -370,8 +583,22 @@ def gobj_out(o):
 
 
 def coq_check(c, o):
+    if c.op == "badfile":
+        b = gz(c.args["base"])
+        if "exc" in o:
+            return f"c16_lines_ok {b} {glines(o['lines'])} None"
+        got = gobj_out(o)
+        if got is None:
+            return "false"           # e.g. negative subscripts stored (C19-N14): not an object of the model
+        return f"c16_lines_ok {b} {glines(o['lines'])} (Some {got})"
     if "exc" in o:
         return "false"
+    if c.args.get("fmt_data") or c.args.get("fmt_weights"):
+        # non-default formats: same layout, values rounded by the format (what is read back is the rounded object)
+        got = gobj_out(o)
+        if got is None:
+            return "false"
+        return f"c16_case 1%Z {gobj_in(_rounded_args(c))} {glines(o['lines'])} {got}"
     got = gobj_out(o)
     if got is None or not o["text_ok"]:
         return "false"
@@ -385,6 +612,10 @@ def coq_check(c, o):
 # ---------------------------------------------------------------- brute-force oracle (pure Python)
 def oracle(c, o):
     a = c.args
+    if c.op == "badfile":
+        return None          # the property does not speak about malformed files; the model's verdict is the reference
+    if a.get("fmt_data") or a.get("fmt_weights"):
+        a = _rounded_args(c).args
     if "exc" in o:
         return f"export/import of an admissible object raised {o['exc']}: {o.get('msg')}"
     want_type = {"tensor": "tensor", "sptensor": "sptensor", "ktensor": "ktensor", "matrix": "ndarray", "ndarray": "ndarray"}[c.op]
@@ -411,3 +642,64 @@ def oracle(c, o):
         if o["mshape"] != a["shape"] or o["cbits"] != a["cbits"]:
             return "array (shape, C-order listing) not reproduced"
     return None
+
+
+# ---------------------------------------------------------------- known findings
+def _neg_sub(c):
+    """a sparse file one of whose subscripts lies below the index base it is read with"""
+    if c.op != "badfile":
+        return False
+    L = c.args["lines"]
+    if len(L) < 5 or L[0][:1] != ["sptensor"]:
+        return False
+    for ln in L[4:]:
+        for t in ln[:-1]:
+            if _INT.match(t) and int(t) - c.args["base"] < 0:
+                return True
+    return False
+
+
+TRIGGERS = {
+    # C19-N14 (open, owned by C19): sptensor.__init__ checks only the upper bound, so import_data with a too large
+    # index_base returns a sparse tensor with NEGATIVE subscripts instead of rejecting the file; the model rejects
+    "negative_subscript_after_base": _neg_sub,
+    # C16-N1: a Kruskal tensor without components is written with an empty weights line that import never consumes
+    "rank_zero": lambda c: c.op == "ktensor" and len(c.args["weights"]) == 0,
+}
+
+
+def _w_negsub():
+    import numpy as np
+    import pyttb as ttb
+    d = tempfile.mkdtemp(prefix="c16_")
+    try:
+        path = os.path.join(d, "w.tns")
+        with open(path, "w") as fh:
+            fh.write("sptensor\n2\n2 3\n1\n1 2 5.0\n")
+        try:
+            S = ttb.import_data(path, index_base=2)
+        except Exception:
+            return None
+        return f"a 1-based file read with index_base=2 is accepted with subscripts {S.subs.tolist()}"
+    finally:
+        shutil.rmtree(d, ignore_errors=True)
+
+
+def _w_rank0():
+    import numpy as np
+    import pyttb as ttb
+    d = tempfile.mkdtemp(prefix="c16_")
+    try:
+        path = os.path.join(d, "w.tns")
+        K = ttb.ktensor.from_function(np.ones, (2, 3), 0)
+        ttb.export_data(K, path)
+        try:
+            R = ttb.import_data(path)
+        except Exception as ex:
+            return f"export then import of a rank-0 ktensor raises {type(ex).__name__}: {str(ex)[:60]}"
+        return None if isinstance(R, ttb.ktensor) and R.shape == (2, 3) and R.ncomponents == 0 else "rank-0 ktensor not reproduced"
+    finally:
+        shutil.rmtree(d, ignore_errors=True)
+
+
+WITNESSES = {"C19-N14": _w_negsub, "C16-N1": _w_rank0}
